@@ -10,7 +10,7 @@ def norm(v):
     return ["noResult" if x == "noOutcome" else x for x in v]
 
 
-def process_protocol(ctx, binp):
+def process_protocol(ctx, binp, only=None):
     """Process.tla: how a peer process is stopped (abort, grace period, forced close, give up); bound to the real runCommand."""
     allowed = {}
     for kind in ("polite", "stubborn", "holder"):
@@ -19,11 +19,14 @@ def process_protocol(ctx, binp):
         for x in g.json_lines("SCN "):
             allowed.setdefault(kind, set()).add(x["result"].replace("exit-error", "exited").replace("exit", "exited").replace("exiteded", "exited"))
     allowed["selfexit"] = {"exited"}
+    allowed["selfexit-unread"] = {"exited"}
     # LocalProcess.tla: the same question for a peer that runs in process (each result() call gives up after one grace period)
     for kind in ("polite", "stubborn", "selfexit"):
         r = ctx.tlc("LocalProcess", "MC_LocalProcess_%s.cfg" % kind, timeout=600)
         allowed["inproc-" + kind] = {x for x in ("exited", "gave-up") if any(x in ln for ln in r.lines("SCN "))}
-    kinds = ["polite", "selfexit", "inproc-polite", "inproc-stubborn"] + ([] if ctx.quick else ["stubborn", "holder"])
+    kinds = ["polite", "selfexit", "selfexit-unread", "stubborn", "inproc-polite", "inproc-stubborn"] + ([] if ctx.quick else ["holder"])
+    if only:
+        kinds = only
     outp = os.path.join(ctx.build, "c11.proc")
     ctx.run_harness(binp, "TestVerifC11Process", env=dict(VERIF_OUT=outp, VERIF_KINDS=",".join(kinds)), timeout=120)
     obs = vf.read_ndjson(outp)
@@ -35,11 +38,17 @@ def process_protocol(ctx, binp):
             raise vf.Machinery("could not start helper process: %s" % o["start_err"])
         if o.get("hang"):
             why = "result() did not return within 25 s after abort (two 5 s grace periods allowed)"
+        elif o.get("alive_after"):
+            why = "the peer process (pid %s) is still alive 2 s after result() returned (GoneWhenDone)" % o.get("pid")
+        elif o.get("write_hang"):
+            why = "a write to the stdin of a peer that has ended (PipesClosedWhenGone) did not return within 8 s"
+        elif o["kind"] == "selfexit-unread" and not o.get("write_err"):
+            why = "a 1 MiB write to the stdin of a peer that ended without reading reported success"
         elif o["result"] not in allowed[o["kind"]]:
             why = "result class %s not among %s" % (o["result"], sorted(allowed[o["kind"]]))
         elif o["seconds"] > 13:
             why = "stopping took %.1f s, more than two grace periods" % o["seconds"]
-        elif o["kind"] in ("polite", "selfexit") and o["seconds"] > 4:
+        elif o["kind"] in ("polite", "selfexit", "selfexit-unread") and o["seconds"] > 4:
             why = "a cooperative peer took %.1f s to be reaped" % o["seconds"]
         elif o["kind"] == "inproc-stubborn" and o["seconds"] > 8:
             why = "giving up on an in-process peer took %.1f s, more than one grace period" % o["seconds"]
@@ -53,7 +62,7 @@ def process_protocol(ctx, binp):
             ctx.candidate(dict(kind="process-" + o["kind"], why=why.split(" ")[0]), "process stop protocol (%s peer): %s; observed %s" % (o["kind"], why, json.dumps(o)), o)
     ctx.cov["traces_validated_against_impl"] += len(obs)
     ctx.cov["evaluations"] += len(obs)
-    ctx.notes["process_protocol"] = dict(kinds=kinds, observed=obs, allowed={k: sorted(v) for k, v in allowed.items()})
+    ctx.notes["process_protocol" + ("_reduced" if only else "")] = dict(kinds=kinds, observed=obs, allowed={k: sorted(v) for k, v in allowed.items()})
 
 
 ASSUMPTIONS = ["scripted process/client runner stand in for real peers in the batch scripts (the client runner's own guarantees are discharged by the reduced ClientMux leg)",
@@ -71,6 +80,10 @@ def run(ctx):
     import g_refserver
     if ctx.replay and g_refserver.owns_replay(ctx.replay):   # replay file written by the life-cycle leg
         g_refserver.leg(ctx)
+        return
+    import g_sideband
+    if ctx.replay and g_sideband.owns_replay(ctx.replay):   # replay file written by the side-channel leg
+        g_sideband.leg(ctx)
         return
     if ctx.replay and "schedule" in json.load(open(ctx.replay)).get("scenario", {}):   # written by the multiplexer leg
         import c10
@@ -96,6 +109,10 @@ def run(ctx):
         # growth item: RefServer.tla (life cycle of a server process) bound to referenceserver.Run and grpcserver.Run
         g_refserver.leg(ctx)
         ctx.cov["rule"] += " " + ctx.notes.get("refserver_rule", "")
+        # growth item: Sideband.tla (feedback side channel: printer, pipe, stderr reader) bound to internal.NewPrinter
+        # and to the stderr goroutine of runTestCasesForServer
+        g_sideband.leg(ctx)
+        ctx.cov["rule"] += " " + ctx.notes.get("sideband_rule", "")
 
 
 def batch_leg(ctx, q, with_process):
